@@ -284,3 +284,18 @@ package state
 //@   ensures err == nil && old(Deliver(ctx)) ==> mapEq(GActB, old(GActB)) && mapEq(GActS, old(GActS)) && mapEq(GDebB, old(GDebB)) && mapEq(GDebS, old(GDebS))
 //@   ensures err == nil ==> GCommon == old(GCommon) && GGovDep == old(GGovDep) && GLastFees == old(GLastFees) && GSupply == old(GSupply)
 //@   ensures err == nil ==> mapEq(GDel, old(GDel)) && mapEq(GDelSum, old(GDelSum)) && mapEq(GDeb, old(GDeb)) && mapEq(GDebSum, old(GDebSum))
+
+// ---- stake claims (escrow account accumulator; balances are not touched) ----
+
+//@ func AddStakeClaim
+//@   trusted
+//@   modifies GGen, GActB, GActS, GDebB, GDebS, GAcctSum, GWrites, GNonce
+//@   ensures err != nil && !unavail(err) ==> GWrites == old(GWrites)
+//@   ensures err == nil ==> GAcctSum == old(GAcctSum) && mapEq(GGen, old(GGen)) && mapEq(GActB, old(GActB)) && mapEq(GActS, old(GActS)) && mapEq(GDebB, old(GDebB)) && mapEq(GDebS, old(GDebS)) && mapEq(GNonce, old(GNonce))
+//@   note stores the account with one more claim in its stake accumulator iff the escrow balance covers all claims; staking keys live under other key formats than registry keys (the T-KV ghost of the registry is untouched)
+
+//@ func RemoveStakeClaim
+//@   trusted
+//@   modifies GGen, GActB, GActS, GDebB, GDebS, GAcctSum, GWrites, GNonce
+//@   ensures err != nil && !unavail(err) ==> GWrites == old(GWrites)
+//@   ensures err == nil ==> GAcctSum == old(GAcctSum) && mapEq(GGen, old(GGen)) && mapEq(GActB, old(GActB)) && mapEq(GActS, old(GActS)) && mapEq(GDebB, old(GDebB)) && mapEq(GDebS, old(GDebS)) && mapEq(GNonce, old(GNonce))
